@@ -22,6 +22,7 @@ type c5Base struct {
 func (b *c5Base) Who() string    { return b.Id }
 func (b *c5Base) Naming() string { return b.Name }
 func (b *c5Base) Init() error    { b.Inits++; return nil }
+func (b *c5Base) Ping()          {} // the method the func-tag variant of the point asks for
 
 type c5Eager struct{ c5Base }
 type c5EagerPrim struct{ c5Base }
@@ -44,6 +45,14 @@ type c5HolderOpt struct {
 	F c5I `wire:",required=false"`
 }
 
+// the same point declared with the func tag (every candidate has the method)
+type c5HolderFn struct {
+	F c5I `func:"Ping"`
+}
+type c5HolderFnOpt struct {
+	F c5I `func:"Ping,required=false"`
+}
+
 type c5Prov struct {
 	Lazy  bool `json:"lazy,omitempty"`
 	Prim  bool `json:"primary,omitempty"`
@@ -53,6 +62,7 @@ type c5Prov struct {
 type c5LazyCase struct {
 	Provs []c5Prov `json:"providers"`
 	Opt   bool     `json:"optional_point,omitempty"`
+	Func  bool     `json:"func_tag,omitempty"`
 	Desc  bool     `json:"descending,omitempty"`
 }
 
@@ -86,8 +96,10 @@ func c05Lazy(c *core.Ctx) {
 			}
 			for _, opt := range []bool{false, true} {
 				for _, desc := range []bool{false, true} {
-					if !yield(c5LazyCase{ps, opt, desc}) {
-						return false
+					for _, fn := range []bool{false, true} {
+						if !yield(c5LazyCase{Provs: ps, Opt: opt, Desc: desc, Func: fn}) {
+							return false
+						}
 					}
 				}
 			}
@@ -122,7 +134,13 @@ func c05Lazy(c *core.Ctx) {
 			}
 		}
 		var get func() c5I
-		if cs.Opt {
+		if cs.Func && cs.Opt {
+			h := &c5HolderFnOpt{}
+			comps, get = append(comps, h), func() c5I { return h.F }
+		} else if cs.Func {
+			h := &c5HolderFn{}
+			comps, get = append(comps, h), func() c5I { return h.F }
+		} else if cs.Opt {
 			h := &c5HolderOpt{}
 			comps, get = append(comps, h), func() c5I { return h.F }
 		} else {
@@ -144,7 +162,7 @@ func c05Lazy(c *core.Ctx) {
 		c.S.Nontrivial++
 		c.S.Transitions += int64(o.Trace.Calls)
 		key := "C05/lazy-candidates/" + core.Hash(cs)
-		desc := fmt.Sprintf("single-valued by-type point with candidates %+v (optional %v, descending %v)", cs.Provs, cs.Opt, cs.Desc)
+		desc := fmt.Sprintf("single-valued by-type point with candidates %+v (optional %v, descending %v, func tag %v)", cs.Provs, cs.Opt, cs.Desc, cs.Func)
 		if !o.OK() {
 			c.Outcome("lazycand/start-failed")
 			c.Report(key, "start-failed", fmt.Sprintf("%s: start-up did not succeed: %v %s%s", desc, scen.FirstLine(o.Err), o.Panic, o.Abort), cs)
